@@ -1,11 +1,1306 @@
-use vcommon::*;
+//! C41 — services start and stop cleanly under any interleaving.
+//!
+//! Drives the real `fuel_core_services::ServiceRunner` over a scripted
+//! `RunnableService`/`RunnableTask` with 1–3 client tasks issuing
+//! start/stop/await requests in seeded orders, in two modes:
+//!   * deterministic: current-thread runtime, paused (virtual) time, seeded yields;
+//!   * stress: 4-thread runtime, real time, distinct interleaving signatures counted.
+//! The oracle (`judge`) works offline on the recorded event history.
+
+use fuel_core_services::{
+    EmptyShared,
+    RunnableService,
+    RunnableTask,
+    Service,
+    ServiceRunner,
+    State,
+    StateWatcher,
+    TaskNextAction,
+};
+use serde_json::{
+    Value,
+    json,
+};
+use std::{
+    collections::{
+        BTreeMap,
+        HashSet,
+    },
+    sync::{
+        Arc,
+        Mutex,
+        atomic::{
+            AtomicU64,
+            Ordering,
+        },
+    },
+    time::Duration,
+};
+use vcommon::{
+    rand::Rng,
+    *,
+};
+
+// ---------------------------------------------------------------------------
+// scripted behaviours
+// ---------------------------------------------------------------------------
+
+#[derive(Clone, Debug, PartialEq, Eq, Hash)]
+enum InitB {
+    Ok,
+    Err,
+    Panic,
+    /// sleep (virtual ms in deterministic mode) then succeed
+    Slow(u32),
+    /// yield n times then succeed
+    Yields(u8),
+    /// sleep then fail
+    SlowErr(u32),
+}
+
+#[derive(Clone, Debug, PartialEq, Eq, Hash)]
+enum RunB {
+    /// yield + short sleep, then `Continue`
+    Continue(u32),
+    /// `Stop` on its own (no stop request needed)
+    Stop,
+    /// `ErrorContinue`
+    Error,
+    Panic,
+    /// `watcher.while_started().await` then `Stop`
+    BlockUntilStop,
+    /// waits for stop or a sleep, whichever first, then returns `Continue`
+    /// (the runner must notice the state on its own)
+    WaitThenContinue(u32),
+    /// ignores the stop signal for the given time, then `Continue`
+    SlowContinue(u32),
+}
+
+#[derive(Clone, Debug, PartialEq, Eq, Hash)]
+enum ShutB {
+    Ok,
+    Err,
+    Panic,
+    Slow(u32),
+}
+
+#[derive(Clone, Debug, PartialEq, Eq, Hash)]
+struct Script {
+    init: InitB,
+    runs: Vec<RunB>,
+    tail: RunB,
+    shut: ShutB,
+    hook_yields: u8,
+}
+
+#[derive(Clone, Debug, PartialEq, Eq, Hash)]
+enum Op {
+    Start,
+    StartAndAwait,
+    AwaitStartOrStop,
+    Stop,
+    StopAndAwait,
+    AwaitStop,
+    Yield(u8),
+    Sleep(u32),
+    Poll,
+}
+
+impl Op {
+    fn name(&self) -> &'static str {
+        match self {
+            Op::Start => "start",
+            Op::StartAndAwait => "start_and_await",
+            Op::AwaitStartOrStop => "await_start_or_stop",
+            Op::Stop => "stop",
+            Op::StopAndAwait => "stop_and_await",
+            Op::AwaitStop => "await_stop",
+            Op::Yield(_) => "yield",
+            Op::Sleep(_) => "sleep",
+            Op::Poll => "poll",
+        }
+    }
+}
+
+#[derive(Clone, Debug, PartialEq, Eq, Hash)]
+struct Case {
+    script: Script,
+    clients: Vec<Vec<Op>>,
+    /// spawn a `StateWatcher::wait_stopping_or_stopped` probe (deterministic mode)
+    watcher_probe: bool,
+    /// virtual ms before the probe is started
+    probe_delay: u32,
+}
+
+fn gen_case<R: Rng>(rng: &mut R, det: bool, allow_probe: bool) -> Case {
+    let init = match rng.gen_range(0..100) {
+        0..=44 => InitB::Ok,
+        45..=54 => InitB::Err,
+        55..=64 => InitB::Panic,
+        65..=79 => InitB::Slow(*pick(rng, &[1, 5, 50, 500])),
+        80..=92 => InitB::Yields(rng.gen_range(1..5)),
+        _ => InitB::SlowErr(*pick(rng, &[1, 50])),
+    };
+    let gen_run = |rng: &mut R| match rng.gen_range(0..100) {
+        0..=29 => RunB::Continue(*pick(rng, &[1, 1, 5, 50])),
+        30..=39 => RunB::Stop,
+        40..=51 => RunB::Error,
+        52..=61 => RunB::Panic,
+        62..=79 => RunB::BlockUntilStop,
+        80..=89 => RunB::WaitThenContinue(*pick(rng, &[1, 20, 300])),
+        _ => RunB::SlowContinue(*pick(rng, &[5, 100])),
+    };
+    let n_runs = rng.gen_range(0..4);
+    let runs = (0..n_runs).map(|_| gen_run(rng)).collect();
+    let tail = match rng.gen_range(0..100) {
+        0..=49 => RunB::BlockUntilStop,
+        50..=69 => RunB::Continue(1000),
+        70..=84 => RunB::WaitThenContinue(1000),
+        85..=92 => RunB::Stop,
+        _ => RunB::Panic,
+    };
+    let shut = match rng.gen_range(0..100) {
+        0..=54 => ShutB::Ok,
+        55..=69 => ShutB::Err,
+        70..=84 => ShutB::Panic,
+        _ => ShutB::Slow(*pick(rng, &[1, 50, 2000])),
+    };
+    let script = Script {
+        init,
+        runs,
+        tail,
+        shut,
+        hook_yields: rng.gen_range(0..3),
+    };
+    let n_clients = rng.gen_range(1..=3usize);
+    let mut clients = Vec::new();
+    for c in 0..n_clients {
+        let n_ops = rng.gen_range(1..=5usize);
+        let mut ops = Vec::new();
+        for i in 0..n_ops {
+            let op = if c == 0 && i == 0 && chance(rng, 60) {
+                if chance(rng, 50) { Op::Start } else { Op::StartAndAwait }
+            } else {
+                match rng.gen_range(0..100) {
+                    0..=11 => Op::Start,
+                    12..=21 => Op::StartAndAwait,
+                    22..=29 => Op::AwaitStartOrStop,
+                    30..=43 => Op::Stop,
+                    44..=57 => Op::StopAndAwait,
+                    58..=69 => Op::AwaitStop,
+                    70..=84 => Op::Yield(rng.gen_range(1..6)),
+                    85..=94 => Op::Sleep(*pick(rng, &[1, 3, 50, 400])),
+                    _ => Op::Poll,
+                }
+            };
+            ops.push(op);
+        }
+        clients.push(ops);
+    }
+    Case {
+        script,
+        clients,
+        watcher_probe: det && allow_probe && chance(rng, 20),
+        probe_delay: *pick(rng, &[0, 0, 2, 60]),
+    }
+}
+
+// ---------------------------------------------------------------------------
+// scripted service
+// ---------------------------------------------------------------------------
+
+struct Ctx {
+    log: EventLog,
+    det: bool,
+    run_events: AtomicU64,
+}
+
+impl Ctx {
+    /// A scripted pause: virtual milliseconds when time is paused, a few dozen real
+    /// microseconds in stress mode (so that cases stay short).
+    async fn pause(&self, ms: u32) {
+        if self.det {
+            tokio::time::sleep(Duration::from_millis(ms as u64)).await;
+        } else if ms < 10 {
+            // tokio timers have 1 ms granularity: short pauses are yields
+            for _ in 0..=ms {
+                tokio::task::yield_now().await;
+            }
+        } else {
+            tokio::time::sleep(Duration::from_millis(1)).await;
+        }
+    }
+
+    async fn yields(&self, n: u8) {
+        for _ in 0..n {
+            tokio::task::yield_now().await;
+        }
+    }
+
+    fn obs(&self, who: &str, s: &State) {
+        let msg = match s {
+            State::StoppedWithError(m) => Some(hash64(m)),
+            _ => None,
+        };
+        self.log.push("obs", json!({"who": who, "s": sname(s), "r": rank(s), "m": msg}));
+    }
+}
+
+fn rank(s: &State) -> u8 {
+    match s {
+        State::NotStarted => 0,
+        State::Starting => 1,
+        State::Started => 2,
+        State::Stopping => 3,
+        State::Stopped => 4,
+        State::StoppedWithError(_) => 4,
+    }
+}
+
+fn sname(s: &State) -> &'static str {
+    match s {
+        State::NotStarted => "NotStarted",
+        State::Starting => "Starting",
+        State::Started => "Started",
+        State::Stopping => "Stopping",
+        State::Stopped => "Stopped",
+        State::StoppedWithError(_) => "StoppedWithError",
+    }
+}
+
+struct Svc {
+    ctx: Arc<Ctx>,
+    script: Script,
+}
+
+struct Tsk {
+    ctx: Arc<Ctx>,
+    script: Script,
+    i: usize,
+}
+
+#[async_trait::async_trait]
+impl RunnableService for Svc {
+    const NAME: &'static str = "VerifScripted";
+    type SharedData = EmptyShared;
+    type Task = Tsk;
+    type TaskParams = ();
+
+    fn shared_data(&self) -> EmptyShared {
+        EmptyShared
+    }
+
+    async fn into_task(self, _w: &StateWatcher, _p: ()) -> anyhow::Result<Tsk> {
+        let ctx = self.ctx.clone();
+        ctx.log.push("init.enter", json!({"b": format!("{:?}", self.script.init)}));
+        ctx.yields(self.script.hook_yields).await;
+        let out = match &self.script.init {
+            InitB::Ok => "ok",
+            InitB::Err => "err",
+            InitB::Panic => "panic",
+            InitB::Slow(ms) => {
+                ctx.pause(*ms).await;
+                "ok"
+            }
+            InitB::Yields(n) => {
+                ctx.yields(*n).await;
+                "ok"
+            }
+            InitB::SlowErr(ms) => {
+                ctx.pause(*ms).await;
+                "err"
+            }
+        };
+        ctx.log.push("init.exit", json!({"out": out}));
+        match out {
+            "ok" => Ok(Tsk {
+                ctx,
+                script: self.script,
+                i: 0,
+            }),
+            "err" => Err(anyhow::anyhow!("scripted init error")),
+            _ => panic!("scripted init panic"),
+        }
+    }
+}
+
+const MAX_LOGGED_RUNS: u64 = 64;
+
+impl RunnableTask for Tsk {
+    async fn run(&mut self, watcher: &mut StateWatcher) -> TaskNextAction {
+        let b = self
+            .script
+            .runs
+            .get(self.i)
+            .cloned()
+            .unwrap_or_else(|| self.script.tail.clone());
+        let n = self.ctx.run_events.fetch_add(1, Ordering::SeqCst);
+        let logged = n < MAX_LOGGED_RUNS;
+        if logged {
+            self.ctx.log.push("run.enter", json!({"i": self.i, "b": format!("{b:?}")}));
+        }
+        self.i += 1;
+        self.ctx.yields(self.script.hook_yields).await;
+        let out = match &b {
+            RunB::Continue(ms) => {
+                // always park on a timer so that virtual time can advance
+                self.ctx.pause(*ms).await;
+                "continue"
+            }
+            RunB::Stop => "stop",
+            RunB::Error => {
+                self.ctx.pause(1).await;
+                "error"
+            }
+            RunB::Panic => "panic",
+            RunB::BlockUntilStop => {
+                let _ = watcher.while_started().await;
+                "stop"
+            }
+            RunB::WaitThenContinue(ms) => {
+                let ctx = self.ctx.clone();
+                tokio::select! {
+                    _ = watcher.while_started() => {}
+                    _ = ctx.pause(*ms) => {}
+                }
+                // never a busy loop: park at least once
+                self.ctx.pause(1).await;
+                "continue"
+            }
+            RunB::SlowContinue(ms) => {
+                self.ctx.pause(*ms).await;
+                "continue"
+            }
+        };
+        if logged {
+            self.ctx.log.push("run.exit", json!({"out": out}));
+        }
+        match out {
+            "continue" => TaskNextAction::Continue,
+            "stop" => TaskNextAction::Stop,
+            "error" => TaskNextAction::ErrorContinue(anyhow::anyhow!("scripted run error")),
+            _ => panic!("scripted run panic"),
+        }
+    }
+
+    async fn shutdown(self) -> anyhow::Result<()> {
+        self.ctx
+            .log
+            .push("shutdown.enter", json!({"b": format!("{:?}", self.script.shut)}));
+        self.ctx.yields(self.script.hook_yields).await;
+        let out = match &self.script.shut {
+            ShutB::Ok => "ok",
+            ShutB::Err => "err",
+            ShutB::Panic => "panic",
+            ShutB::Slow(ms) => {
+                self.ctx.pause(*ms).await;
+                "ok"
+            }
+        };
+        self.ctx.log.push("shutdown.exit", json!({"out": out}));
+        match out {
+            "ok" => Ok(()),
+            "err" => Err(anyhow::anyhow!("scripted shutdown error")),
+            _ => panic!("scripted shutdown panic"),
+        }
+    }
+}
+
+type Runner = ServiceRunner<Svc>;
+
+fn res_state(r: &anyhow::Result<State>) -> Value {
+    match r {
+        Ok(s) => json!({"ok": true, "s": sname(s), "r": rank(s)}),
+        Err(e) => json!({"ok": false, "e": e.to_string()}),
+    }
+}
+
+async fn client(ctx: Arc<Ctx>, svc: Arc<Runner>, id: usize, ops: Vec<Op>, selftest_hang: bool) {
+    let who = format!("c{id}");
+    for (i, op) in ops.iter().enumerate() {
+        ctx.obs(&who, &svc.state());
+        ctx.log.push("op.call", json!({"who": who, "i": i, "op": op.name()}));
+        let res = match op {
+            Op::Start => match svc.start() {
+                Ok(()) => json!({"ok": true}),
+                Err(e) => json!({"ok": false, "e": e.to_string()}),
+            },
+            Op::StartAndAwait => res_state(&svc.start_and_await().await),
+            Op::AwaitStartOrStop => res_state(&svc.await_start_or_stop().await),
+            Op::Stop => json!({"ok": true, "was_running": svc.stop()}),
+            Op::StopAndAwait => res_state(&svc.stop_and_await().await),
+            Op::AwaitStop => {
+                if selftest_hang {
+                    // deliberately wrong wrapper (oracle self-test): never resolves
+                    std::future::pending::<()>().await;
+                }
+                res_state(&svc.await_stop().await)
+            }
+            Op::Yield(n) => {
+                ctx.yields(*n).await;
+                json!({"ok": true})
+            }
+            Op::Sleep(ms) => {
+                ctx.pause(*ms).await;
+                json!({"ok": true})
+            }
+            Op::Poll => json!({"ok": true}),
+        };
+        ctx.log
+            .push("op.ret", json!({"who": who, "i": i, "op": op.name(), "res": res}));
+        ctx.obs(&who, &svc.state());
+    }
+    ctx.log.push("client.done", json!({"who": who}));
+}
+
+/// follows every state change through a `StateWatcher` until the service stopped
+async fn observer(ctx: Arc<Ctx>, mut w: StateWatcher) {
+    loop {
+        let s = w.borrow_and_update().clone();
+        ctx.obs("watch", &s);
+        if s.stopped() {
+            break;
+        }
+        if w.changed().await.is_err() {
+            ctx.log.push("watch.closed", json!({}));
+            break;
+        }
+    }
+    ctx.log.push("watch.done", json!({}));
+}
+
+async fn probe(ctx: Arc<Ctx>, svc: Arc<Runner>, delay: u32) {
+    ctx.pause(delay).await;
+    let mut w = svc.state_watcher();
+    let s = w.borrow().clone();
+    ctx.log
+        .push("probe.call", json!({"who": "probe", "s": sname(&s), "r": rank(&s)}));
+    let r = w.wait_stopping_or_stopped().await;
+    ctx.log.push("probe.ret", json!({"who": "probe", "ok": r.is_ok()}));
+}
+
+// virtual-time budgets (deterministic mode)
+const SCRIPT_BUDGET_MS: u64 = 10_000;
+const LIVENESS_BUDGET_MS: u64 = 3_600_000;
+
+struct Outcome {
+    events: Vec<Value>,
+    /// client index -> finished
+    clients_done: Vec<bool>,
+    observer_done: bool,
+    probe_done: Option<bool>,
+    final_state: State,
+    /// stress mode only: the wall-clock watchdog fired
+    watchdog: bool,
+}
+
+async fn drive(case: &Case, det: bool, selftest_hang: bool, rng_seed: u64) -> Outcome {
+    let mut rng = rng_for(rng_seed, &[7]);
+    let ctx = Arc::new(Ctx {
+        log: EventLog::new(),
+        det,
+        run_events: AtomicU64::new(0),
+    });
+    let svc = Arc::new(ServiceRunner::new(Svc {
+        ctx: ctx.clone(),
+        script: case.script.clone(),
+    }));
+    ctx.obs("main", &svc.state());
+    let mut obs_h = tokio::spawn(observer(ctx.clone(), svc.state_watcher()));
+    let mut handles = Vec::new();
+    for (id, ops) in case.clients.iter().enumerate() {
+        // seeded yields between the spawns change the initial task order
+        ctx.yields(rng.gen_range(0..3)).await;
+        handles.push(tokio::spawn(client(
+            ctx.clone(),
+            svc.clone(),
+            id,
+            ops.clone(),
+            selftest_hang,
+        )));
+    }
+    let probe_h = if case.watcher_probe {
+        Some(tokio::spawn(probe(ctx.clone(), svc.clone(), case.probe_delay)))
+    } else {
+        None
+    };
+
+    let mut watchdog = false;
+    if det {
+        // let the script play; poll the state at seeded virtual times
+        let mut left = SCRIPT_BUDGET_MS;
+        for _ in 0..6 {
+            let d = (*pick(&mut rng, &[0u64, 1, 2, 7, 60, 500, 3000])).min(left);
+            left -= d;
+            tokio::time::sleep(Duration::from_millis(d)).await;
+            ctx.yields(rng.gen_range(0..3)).await;
+            ctx.obs("main", &svc.state());
+        }
+        tokio::time::sleep(Duration::from_millis(left)).await;
+        ctx.obs("main", &svc.state());
+        // final stop request by the harness: from here on every await must resolve
+        ctx.log.push("op.call", json!({"who": "main", "i": 0, "op": "stop"}));
+        let was = svc.stop();
+        ctx.log.push(
+            "op.ret",
+            json!({"who": "main", "i": 0, "op": "stop", "res": {"ok": true, "was_running": was}}),
+        );
+        ctx.obs("main", &svc.state());
+        tokio::time::sleep(Duration::from_millis(LIVENESS_BUDGET_MS)).await;
+        // anything woken at the very same instant gets its turn
+        for _ in 0..4 {
+            ctx.yields(8).await;
+            tokio::time::sleep(Duration::from_millis(1)).await;
+        }
+        ctx.obs("main", &svc.state());
+    } else {
+        // tokio timers have 1 ms granularity: short waits are yield loops
+        let k = *pick(&mut rng, &[0u32, 0, 1, 3, 10, 50, 200, 1000]);
+        if k == 1000 {
+            tokio::time::sleep(Duration::from_millis(1)).await;
+        } else {
+            for _ in 0..k {
+                tokio::task::yield_now().await;
+            }
+        }
+        ctx.obs("main", &svc.state());
+        ctx.log.push("op.call", json!({"who": "main", "i": 0, "op": "stop"}));
+        let was = svc.stop();
+        ctx.log.push(
+            "op.ret",
+            json!({"who": "main", "i": 0, "op": "stop", "res": {"ok": true, "was_running": was}}),
+        );
+        ctx.obs("main", &svc.state());
+        // wall-clock watchdog: its firing is *inconclusive*, never a violation
+        let joined = tokio::time::timeout(Duration::from_secs(20), async {
+            for h in handles.iter_mut() {
+                let _ = h.await;
+            }
+            let _ = (&mut obs_h).await;
+        })
+        .await;
+        watchdog = joined.is_err();
+        ctx.obs("main", &svc.state());
+    }
+    let clients_done: Vec<bool> = handles.iter().map(|h| h.is_finished()).collect();
+    let observer_done = obs_h.is_finished();
+    let probe_done = probe_h.as_ref().map(|h| h.is_finished());
+    for h in handles {
+        h.abort();
+    }
+    obs_h.abort();
+    if let Some(h) = probe_h {
+        h.abort();
+    }
+    let final_state = svc.state();
+    Outcome {
+        events: ctx.log.snapshot(),
+        clients_done,
+        observer_done,
+        probe_done,
+        final_state,
+        watchdog,
+    }
+}
+
+// ---------------------------------------------------------------------------
+// oracle (offline over the recorded history)
+// ---------------------------------------------------------------------------
+
+fn s<'a>(e: &'a Value, k: &str) -> &'a str {
+    e.get(k).and_then(|v| v.as_str()).unwrap_or("")
+}
+
+fn u(e: &Value, k: &str) -> u64 {
+    e.get(k).and_then(|v| v.as_u64()).unwrap_or(0)
+}
+
+const RANK_NAMES: [&str; 5] = ["NotStarted", "Starting", "Started", "Stopping", "Stopped*"];
+
+/// Returns (signature, detail) for every refutation found in the history.
+///
+/// `det`: the history comes from the single-threaded paused-time mode, i.e. log order is
+/// real order and the liveness verdict is meaningful.
+fn judge(
+    events: &[Value],
+    det: bool,
+    out: &Outcome,
+    case: &Case,
+) -> (Vec<(String, String)>, Option<String>) {
+    let mut v: Vec<(String, String)> = Vec::new();
+    let mut not_judged: Option<String> = None;
+    let mut evs: Vec<&Value> = events.iter().collect();
+    evs.sort_by_key(|e| u(e, "t"));
+
+    // --- state observations -------------------------------------------------
+    let mut last_rank: BTreeMap<String, u64> = BTreeMap::new();
+    let mut last_stopped: BTreeMap<String, (String, Value)> = BTreeMap::new();
+    // max rank over all observations logged before the observer's previous event
+    let mut snap: BTreeMap<String, u64> = BTreeMap::new();
+    let mut global_max = 0u64;
+    let mut global_stopped: Option<(String, Value)> = None;
+    // first time at which a completed stop request / a state >= Stopping is on record
+    let mut t_stop: Option<u64> = None;
+    // first time at which a stopped state was observed
+    let mut t_stopped: Option<u64> = None;
+    let mut last_hook_exit: Option<u64> = None;
+    let mut init_enters = 0u64;
+    let mut shutdown_enters = 0u64;
+    let mut open_hook: Option<(&str, String)> = None;
+
+    for e in &evs {
+        let t = u(e, "t");
+        let kind = s(e, "kind");
+        let who = s(e, "who").to_string();
+        match kind {
+            "obs" => {
+                let r = u(e, "r");
+                let name = s(e, "s").to_string();
+                if let Some(prev) = last_rank.get(&who)
+                    && r < *prev
+                {
+                    v.push((
+                        format!(
+                            "state_regressed {}->{}",
+                            RANK_NAMES[*prev as usize], RANK_NAMES[r as usize]
+                        ),
+                        format!("observer {who} saw rank {prev} and later {name} (t={t})"),
+                    ));
+                }
+                let reference = if det {
+                    global_max
+                } else {
+                    snap.get(&who).copied().unwrap_or(0)
+                };
+                if r < reference && last_rank.get(&who).is_none_or(|p| r >= *p) {
+                    v.push((
+                        format!(
+                            "state_regressed {}->{}",
+                            RANK_NAMES[reference as usize], RANK_NAMES[r as usize]
+                        ),
+                        format!(
+                            "observer {who} read {name} at t={t} although another observer had \
+                             read rank {reference} strictly earlier"
+                        ),
+                    ));
+                }
+                if r == 4 {
+                    let ident = (name.clone(), e.get("m").cloned().unwrap_or(Value::Null));
+                    if let Some(prev) = last_stopped.get(&who)
+                        && *prev != ident
+                    {
+                        v.push((
+                            format!("left_stopped_state {}->{}", prev.0, ident.0),
+                            format!("observer {who}: stopped state changed at t={t}"),
+                        ));
+                    }
+                    if det {
+                        if let Some(prev) = &global_stopped
+                            && *prev != ident
+                            && last_stopped.get(&who).is_none_or(|p| *p == ident)
+                        {
+                            v.push((
+                                format!("left_stopped_state {}->{}", prev.0, ident.0),
+                                format!("stopped state changed between observers at t={t}"),
+                            ));
+                        }
+                        global_stopped = Some(ident.clone());
+                    }
+                    last_stopped.insert(who.clone(), ident);
+                    t_stopped.get_or_insert(t);
+                }
+                if r >= 3 {
+                    t_stop.get_or_insert(t);
+                }
+                last_rank.insert(who.clone(), r);
+                global_max = global_max.max(r);
+                snap.insert(who, global_max);
+            }
+            "op.ret" => {
+                let op = s(e, "op");
+                let res = e.get("res").cloned().unwrap_or(Value::Null);
+                let ok = res.get("ok").and_then(|x| x.as_bool()).unwrap_or(false);
+                match op {
+                    "stop" | "stop_and_await" => {
+                        t_stop.get_or_insert(t);
+                    }
+                    _ => {}
+                }
+                if ok && matches!(op, "stop_and_await" | "await_stop") {
+                    let r = u(&res, "r");
+                    if r != 4 {
+                        v.push((
+                            format!("await_stop_returned_unstopped op={op}"),
+                            format!("{who} {op} returned {} at t={t}", s(&res, "s")),
+                        ));
+                    }
+                    // a returned stopped state is an observation, too
+                    t_stopped.get_or_insert(t);
+                }
+                if ok && matches!(op, "start_and_await" | "await_start_or_stop") && u(&res, "r") == 1 {
+                    v.push((
+                        format!("await_start_returned_starting op={op}"),
+                        format!("{who} {op} returned Starting at t={t}"),
+                    ));
+                }
+                // the observer's next read happens after this event
+                snap.insert(who, global_max);
+            }
+            "op.call" => {
+                snap.insert(who, global_max);
+            }
+            "init.enter" | "run.enter" | "shutdown.enter" => {
+                let hook = kind.split('.').next().unwrap_or("");
+                if let Some(ts) = t_stopped
+                    && ts < t
+                {
+                    v.push((
+                        format!("ran_after_stopped hook={hook}"),
+                        format!(
+                            "{kind} at t={t} although a stopped state was observed at t={ts}"
+                        ),
+                    ));
+                }
+                match hook {
+                    "init" => {
+                        init_enters += 1;
+                        if init_enters > 1 {
+                            v.push(("init_twice".into(), format!("second into_task at t={t}")));
+                        }
+                        if det
+                            && let Some(ts) = t_stop
+                            && ts < t
+                        {
+                            v.push((
+                                "init_after_stop".into(),
+                                format!(
+                                    "into_task entered at t={t} although a stop request had \
+                                     completed at t={ts}"
+                                ),
+                            ));
+                        }
+                    }
+                    "run" => {
+                        if shutdown_enters > 0 {
+                            v.push((
+                                "run_after_shutdown".into(),
+                                format!("run entered at t={t} after shutdown"),
+                            ));
+                        }
+                        if let (Some(ts), Some(ex)) = (t_stop, last_hook_exit)
+                            && ts < ex
+                        {
+                            v.push((
+                                "run_after_stop_observed".into(),
+                                format!(
+                                    "run entered at t={t}; the previous hook had returned at \
+                                     t={ex}, after a stop was on record at t={ts}"
+                                ),
+                            ));
+                        }
+                    }
+                    _ => {
+                        shutdown_enters += 1;
+                        if shutdown_enters > 1 {
+                            v.push((
+                                "shutdown_twice".into(),
+                                format!("second shutdown at t={t}"),
+                            ));
+                        }
+                    }
+                }
+                if let Some((h, _)) = &open_hook {
+                    v.push((
+                        format!("hooks_overlap {h}+{hook}"),
+                        format!("{kind} at t={t} while {h} had not returned"),
+                    ));
+                }
+                open_hook = Some((hook, s(e, "b").to_string()));
+            }
+            "init.exit" | "run.exit" | "shutdown.exit" => {
+                last_hook_exit = Some(t);
+                open_hook = None;
+            }
+            _ => {}
+        }
+    }
+
+    // --- liveness: deterministic paused-time mode only ------------------------
+    if det {
+        // open operations per client
+        let mut open: BTreeMap<String, (String, u64)> = BTreeMap::new();
+        for e in &evs {
+            match s(e, "kind") {
+                "op.call" => {
+                    open.insert(s(e, "who").to_string(), (s(e, "op").to_string(), u(e, "t")));
+                }
+                "op.ret" => {
+                    open.remove(s(e, "who"));
+                }
+                _ => {}
+            }
+        }
+        let fin = &out.final_state;
+        let hook_blocked = open_hook.clone();
+        for (who, (op, t)) in &open {
+            let sig = match op.as_str() {
+                "await_stop" | "stop_and_await" => "await_stop_never_resolved",
+                "start_and_await" | "await_start_or_stop" => "await_start_never_resolved",
+                _ => "client_op_never_returned",
+            };
+            match &hook_blocked {
+                None => v.push((
+                    format!("{sig} op={op} final_state={}", sname(fin)),
+                    format!(
+                        "{who} called {op} at t={t}; the harness requested stop, all task hooks \
+                         returned, {} ms of virtual time passed with every task idle, and the \
+                         call is still pending (final state {})",
+                        LIVENESS_BUDGET_MS,
+                        sname(fin)
+                    ),
+                )),
+                Some((h, b)) if *h == "run" && b.contains("BlockUntilStop") => v.push((
+                    format!("{sig} op={op} cause=while_started_pending"),
+                    format!(
+                        "{who} called {op} at t={t}; stop was requested but \
+                         StateWatcher::while_started inside run never resolved (final state {})",
+                        sname(fin)
+                    ),
+                )),
+                // a scripted hook that did not return is a harness problem → not judged
+                Some((h, b)) => {
+                    not_judged = Some(format!(
+                        "scripted hook {h} ({b}) did not return within the virtual budget; \
+                         pending {op} of {who} not judged"
+                    ));
+                }
+            }
+        }
+        if !out.observer_done && hook_blocked.is_none() {
+            v.push((
+                format!("watcher_never_saw_stopped final_state={}", sname(fin)),
+                "a StateWatcher subscribed before start never observed a stopped state".into(),
+            ));
+        }
+        if out.probe_done == Some(false) && hook_blocked.is_none() && fin.stopped() {
+            v.push((
+                "watcher_wait_stopping_or_stopped_never_resolves".into(),
+                format!(
+                    "StateWatcher::wait_stopping_or_stopped (called {} ms after spawn while the \
+                     state was below Stopping) is still pending although the service reached {} \
+                     and {} ms of virtual time passed",
+                    case.probe_delay,
+                    sname(fin),
+                    LIVENESS_BUDGET_MS
+                ),
+            ));
+        }
+    }
+    (v, not_judged)
+}
+
+// ---------------------------------------------------------------------------
+// self-test perturbations (harness side)
+// ---------------------------------------------------------------------------
+
+fn perturb(events: &mut Vec<Value>, which: u64) -> bool {
+    match which {
+        // swap the first observation of a higher rank behind a later lower one:
+        // re-insert a copy of the first observation at the end of the history
+        1 => {
+            let first = events.iter().find(|e| s(e, "kind") == "obs" && u(e, "r") <= 2).cloned();
+            let max_t = events.iter().map(|e| u(e, "t")).max().unwrap_or(0);
+            let has_high = events.iter().any(|e| s(e, "kind") == "obs" && u(e, "r") >= 3);
+            if let (Some(mut f), true) = (first, has_high) {
+                f["t"] = json!(max_t + 1);
+                f["who"] = json!("main");
+                events.push(f);
+                true
+            } else {
+                false
+            }
+        }
+        // duplicate the shutdown hook entry
+        2 => {
+            let sh = events.iter().find(|e| s(e, "kind") == "shutdown.exit").cloned();
+            let en = events.iter().find(|e| s(e, "kind") == "shutdown.enter").cloned();
+            if let (Some(mut ex), Some(mut en)) = (sh, en) {
+                let t = u(&ex, "t");
+                // place the duplicate right after the real shutdown returned
+                for e in events.iter_mut() {
+                    let te = u(e, "t");
+                    if te > t {
+                        e["t"] = json!(te + 2);
+                    }
+                }
+                en["t"] = json!(t + 1);
+                ex["t"] = json!(t + 2);
+                events.push(en);
+                events.push(ex);
+                true
+            } else {
+                false
+            }
+        }
+        // a run recorded after the stopped state was observed
+        4 => {
+            let max_t = events.iter().map(|e| u(e, "t")).max().unwrap_or(0);
+            let stopped = events.iter().any(|e| s(e, "kind") == "obs" && u(e, "r") == 4);
+            if stopped {
+                events.push(json!({"t": max_t + 1, "kind": "run.enter", "i": 99, "b": "Injected"}));
+                events.push(json!({"t": max_t + 2, "kind": "run.exit", "out": "continue"}));
+                true
+            } else {
+                false
+            }
+        }
+        _ => false,
+    }
+}
+
+// ---------------------------------------------------------------------------
+// driver
+// ---------------------------------------------------------------------------
+
+fn interleaving_signature(events: &[Value]) -> u64 {
+    let mut evs: Vec<&Value> = events.iter().collect();
+    evs.sort_by_key(|e| u(e, "t"));
+    let seq: Vec<(String, String, String)> = evs
+        .iter()
+        .map(|e| {
+            (
+                s(e, "kind").to_string(),
+                s(e, "who").to_string(),
+                format!("{}{}", s(e, "op"), s(e, "s")),
+            )
+        })
+        .collect();
+    hash64(&seq)
+}
+
+fn case_json(case: &Case) -> Value {
+    json!({
+        "init": format!("{:?}", case.script.init),
+        "runs": case.script.runs.iter().map(|r| format!("{r:?}")).collect::<Vec<_>>(),
+        "tail": format!("{:?}", case.script.tail),
+        "shutdown": format!("{:?}", case.script.shut),
+        "hook_yields": case.script.hook_yields,
+        "clients": case.clients.iter().map(|c| c.iter().map(|o| format!("{o:?}")).collect::<Vec<_>>()).collect::<Vec<_>>(),
+        "watcher_probe": case.watcher_probe,
+    })
+}
+
+struct Shared {
+    stress_sigs: Mutex<HashSet<u64>>,
+    det_sigs: Mutex<HashSet<u64>>,
+}
+
+#[allow(clippy::too_many_arguments)]
+fn account(
+    report: &Report,
+    shared: &Shared,
+    args: &Args,
+    case: &Case,
+    out: &Outcome,
+    det: bool,
+    shard: usize,
+    shard_seed: u64,
+    iteration: u64,
+    selftest: u64,
+) {
+    let mode = if det { "det" } else { "stress" };
+    report.eval();
+    report.count(&format!("{mode}.cases"));
+    let mut events = out.events.clone();
+    if selftest != 0 && selftest != 3 && !perturb(&mut events, selftest) {
+        report.count("selftest.not_applicable");
+        return;
+    }
+    // evidence
+    for e in &events {
+        let kind = s(e, "kind");
+        match kind {
+            "obs" => report.count(&format!("obs.{}", s(e, "s"))),
+            "op.call" => report.count(&format!("op.{}.called", s(e, "op"))),
+            "op.ret" => {
+                let op = s(e, "op");
+                report.count(&format!("op.{op}.returned"));
+                if matches!(op, "await_stop" | "stop_and_await") {
+                    report.count("await_for_stop.resolved");
+                }
+            }
+            "init.enter" | "shutdown.enter" | "run.enter" => {
+                report.count(&format!("hook.{kind}.{}", s(e, "b").split('(').next().unwrap_or("")))
+            }
+            "init.exit" | "shutdown.exit" | "run.exit" => {
+                report.count(&format!("hook.{kind}.{}", s(e, "out")))
+            }
+            "probe.call" => report.count(&format!("probe.called_in.{}", s(e, "s"))),
+            "probe.ret" => report.count("probe.returned"),
+            _ => {}
+        }
+    }
+    report.count(&format!("final.{}", sname(&out.final_state)));
+    // situations of interest
+    let mut evs: Vec<&Value> = events.iter().collect();
+    evs.sort_by_key(|e| u(e, "t"));
+    let mut in_hook: Option<&str> = None;
+    let mut stop_seen = false;
+    for e in &evs {
+        match s(e, "kind") {
+            "init.enter" => in_hook = Some("init"),
+            "run.enter" => in_hook = Some("run"),
+            "shutdown.enter" => in_hook = Some("shutdown"),
+            "init.exit" | "run.exit" | "shutdown.exit" => in_hook = None,
+            "op.ret" if matches!(s(e, "op"), "stop" | "stop_and_await") && !stop_seen => {
+                stop_seen = true;
+                report.count(&format!("situation.first_stop_during.{}", in_hook.unwrap_or("no_hook")));
+            }
+            "op.call" if s(e, "op") == "stop_and_await" && !stop_seen => {
+                // the stop inside stop_and_await takes effect at the call
+                stop_seen = true;
+                report.count(&format!("situation.first_stop_during.{}", in_hook.unwrap_or("no_hook")));
+            }
+            _ => {}
+        }
+    }
+    let sig = interleaving_signature(&events);
+    if det {
+        shared.det_sigs.lock().unwrap().insert(sig);
+    } else {
+        shared.stress_sigs.lock().unwrap().insert(sig);
+    }
+    // non-trivial: the service was started and a stop request raced with a hook, or a hook
+    // failed/panicked, with at least two clients' events interleaved
+    let started = events.iter().any(|e| s(e, "kind") == "init.enter");
+    let failed = events.iter().any(|e| {
+        matches!(s(e, "kind"), "init.exit" | "run.exit" | "shutdown.exit")
+            && matches!(s(e, "out"), "err" | "panic" | "error")
+    });
+    if started && (failed || case.clients.len() > 1) {
+        report.distinct_hash(mix(sig, &[hash64(case), det as u64]));
+    }
+    if out.watchdog {
+        report.count("stress.watchdog_fired");
+        report.inconclusive(format!(
+            "stress case shard {shard} iteration {iteration}: wall-clock watchdog fired (not judged for liveness)"
+        ));
+    }
+    if det {
+        report.count("liveness.cases_judged");
+        let pending = out.clients_done.iter().filter(|d| !**d).count();
+        if pending > 0 {
+            report.count("liveness.pending_clients");
+        }
+    }
+    let (violations, not_judged) = judge(&events, det, out, case);
+    if let Some(n) = not_judged {
+        report.count("liveness.not_judged");
+        report.inconclusive(format!("{mode} shard {shard} iteration {iteration}: {n}"));
+    }
+    if report.wants_sample() && started && failed {
+        report.sample(json!({"mode": mode, "case": case_json(case), "events": events.len(),
+            "history_head": evs.iter().take(40).map(|e| format!("{} {} {}{}{}", u(e,"t"), s(e,"kind"), s(e,"who"), s(e,"op"), s(e,"s"))).collect::<Vec<_>>() }));
+    }
+    let mut seen = HashSet::new();
+    for (sig, detail) in violations {
+        if !seen.insert(sig.clone()) {
+            continue;
+        }
+        let sig = if selftest != 0 { format!("selftest:{sig}") } else { sig };
+        // the recorded history is the witness; keep it only for the first few reports
+        let history: Vec<String> = if report.violation_count() < 40 {
+            evs.iter().take(400).map(|e| e.to_string()).collect()
+        } else {
+            Vec::new()
+        };
+        report.violation(
+            sig,
+            format!("{detail}; mode={mode}; case={}", case_json(case)),
+            json!({"seed": args.seed, "shard": shard, "shard_seed": shard_seed, "iteration": iteration,
+                   "mode": mode, "case": case_json(case), "history": history}),
+        );
+    }
+}
+
+/// `ServiceRunner::new` registers two new Prometheus counters in fuel-core's process-wide
+/// metrics registry and, to do so, text-encodes the whole registry under its lock — the
+/// cost grows with every runner ever created. Metrics are not part of the property, so
+/// the harness empties that registry between cases (nothing of /repo is modified).
+fn reset_metrics_registry() {
+    *fuel_core_metrics::global_registry().registry.lock() = Default::default();
+}
+
+fn run_det_case(case: &Case, selftest_hang: bool, seed: u64) -> Result<Outcome, String> {
+    reset_metrics_registry();
+    let rt = tokio::runtime::Builder::new_current_thread()
+        .enable_time()
+        .start_paused(true)
+        .build()
+        .map_err(|e| e.to_string())?;
+    let out = catch(|| rt.block_on(drive(case, true, selftest_hang, seed)));
+    // dropping the runtime drops every leftover task
+    drop(rt);
+    out
+}
+
+fn c41(args: &Args, report: &Report) {
+    let selftest: u64 = args
+        .extra
+        .get("selftest")
+        .and_then(|v| v.parse().ok())
+        .unwrap_or(0);
+    let allow_probe = args.extra.get("watcher-probe").map(|v| v != "off").unwrap_or(true);
+    let shared = Arc::new(Shared {
+        stress_sigs: Mutex::new(HashSet::new()),
+        det_sigs: Mutex::new(HashSet::new()),
+    });
+
+    if let Some(rep) = read_replay(args) {
+        let shard_seed = rep.get("shard_seed").and_then(|v| v.as_u64()).unwrap_or(0);
+        let iteration = rep.get("iteration").and_then(|v| v.as_u64()).unwrap_or(0);
+        let shard = rep.get("shard").and_then(|v| v.as_u64()).unwrap_or(0) as usize;
+        let det = rep.get("mode").and_then(|v| v.as_str()).unwrap_or("det") == "det";
+        let mut rng = rng_for(shard_seed, &[det as u64, iteration]);
+        let case = gen_case(&mut rng, det, allow_probe);
+        if det {
+            match run_det_case(&case, false, mix(shard_seed, &[iteration])) {
+                Ok(out) => account(report, &shared, args, &case, &out, true, shard, shard_seed, iteration, 0),
+                Err(p) => report.inconclusive(format!("replay panicked in harness: {p}")),
+            }
+        } else {
+            // the schedule cannot be forced: repeat the case many times
+            let rt = tokio::runtime::Builder::new_multi_thread()
+                .worker_threads(4)
+                .enable_time()
+                .build()
+                .expect("rt");
+            for k in 0..2000u64 {
+                reset_metrics_registry();
+                let out = rt.block_on(drive(&case, false, false, mix(shard_seed, &[iteration, k])));
+                account(report, &shared, args, &case, &out, false, shard, shard_seed, iteration, 0);
+            }
+        }
+        return;
+    }
+
+    let shards = 16usize;
+    let det_cases: u64 = args.by_tier(2500, 40_000);
+    let stress_cases: u64 = args.by_tier(1500, 30_000);
+    let (det_cases, stress_cases) = if selftest != 0 {
+        (300, if selftest == 3 { 0 } else { 100 })
+    } else {
+        (det_cases, stress_cases)
+    };
+    // experimentation only (not used by the driver)
+    let det_cases = args.extra.get("det-cases").and_then(|v| v.parse().ok()).unwrap_or(det_cases);
+    let stress_cases = args.extra.get("stress-cases").and_then(|v| v.parse().ok()).unwrap_or(stress_cases);
+    {
+        let report = report.clone();
+        let shared = shared.clone();
+        let args2 = args.clone();
+        run_shards(&report.clone(), args, shards, move |shard, shard_seed| {
+            // deterministic mode
+            for it in 0..det_cases {
+                let mut rng = rng_for(shard_seed, &[1, it]);
+                let case = gen_case(&mut rng, true, allow_probe);
+                match run_det_case(&case, selftest == 3, mix(shard_seed, &[it])) {
+                    Ok(out) => account(&report, &shared, &args2, &case, &out, true, shard, shard_seed, it, selftest),
+                    Err(p) => report.inconclusive(format!(
+                        "deterministic case shard {shard} iteration {it} panicked in harness: {p}"
+                    )),
+                }
+            }
+            // stress mode: one 4-thread runtime per shard, reused over the cases
+            if stress_cases > 0 {
+                let rt = tokio::runtime::Builder::new_multi_thread()
+                    .worker_threads(4)
+                    .enable_time()
+                    .build()
+                    .expect("rt");
+                for it in 0..stress_cases {
+                    let mut rng = rng_for(shard_seed, &[0, it]);
+                    let case = gen_case(&mut rng, false, allow_probe);
+                    let h = rt.handle().clone();
+                    reset_metrics_registry();
+                    // `drive` runs on a worker thread so that all 4 workers take part
+                    let res = catch(|| {
+                        let c2 = case.clone();
+                        rt.block_on(async move {
+                            h.spawn(async move { drive(&c2, false, false, mix(shard_seed, &[it])).await })
+                                .await
+                        })
+                    });
+                    match res {
+                        Ok(Ok(out)) => account(&report, &shared, &args2, &case, &out, false, shard, shard_seed, it, selftest),
+                        Ok(Err(e)) => report.inconclusive(format!("stress case join error: {e}")),
+                        Err(p) => report.inconclusive(format!("stress case panicked in harness: {p}")),
+                    }
+                }
+                rt.shutdown_timeout(Duration::from_millis(200));
+            }
+        });
+    }
+    let n_stress = shared.stress_sigs.lock().unwrap().len() as u64;
+    let n_det = shared.det_sigs.lock().unwrap().len() as u64;
+    report.add("stress.distinct_interleaving_signatures", n_stress);
+    report.add("det.distinct_interleaving_signatures", n_det);
+    report.info("distinct_interleaving_signatures", json!({"stress": n_stress, "deterministic": n_det}));
+
+    if selftest == 0 {
+        let k = args.by_tier(1u64, 8);
+        report.require("det.cases", 20_000 * k);
+        report.require("stress.cases", 12_000 * k);
+        report.require("det.distinct_interleaving_signatures", 5_000);
+        report.require("stress.distinct_interleaving_signatures", 3_000);
+        report.require("await_for_stop.resolved", 20_000);
+        report.require("hook.shutdown.exit.ok", 5_000);
+        report.require("hook.shutdown.exit.panic", 1_000);
+        report.require("hook.run.exit.panic", 1_000);
+        report.require("hook.init.exit.panic", 1_000);
+        report.require("hook.init.exit.err", 1_000);
+        report.require("final.Stopped", 5_000);
+        report.require("final.StoppedWithError", 5_000);
+        report.require("situation.first_stop_during.init", 500);
+        report.require("situation.first_stop_during.run", 2_000);
+        report.require("situation.first_stop_during.no_hook", 2_000);
+        report.require("obs.Starting", 1_000);
+        report.require("obs.Stopping", 1_000);
+        report.require("liveness.cases_judged", 20_000 * k);
+    }
+}
 
 fn main() {
     let args = Args::parse();
     install_quiet_panic_hook();
     let report = Report::new(&args.property);
+    let rule = "case = scripted service (init ok/err/panic/slow/yields; per-iteration run behaviour \
+        continue/stop/error/panic/block-until-stop/wait-then-continue/slow; shutdown ok/err/panic/slow) x 1-3 \
+        client tasks of 1-5 ops from {start, start_and_await, await_start_or_stop, stop, stop_and_await, \
+        await_stop, yield(k), sleep, poll} drawn from the seed; every case runs on the real ServiceRunner, \
+        deterministic cases on a paused current-thread runtime, stress cases on a 4-thread runtime. A case is \
+        counted distinct/non-trivial when into_task was entered and (a hook failed or panicked, or >=2 clients \
+        took part); the key is (case, mode, observed interleaving signature = hash of the ordered event kinds).";
+    let assumptions = [
+        "scripted hooks always return in bounded virtual time (no hook ignores the stop signal forever)",
+        "liveness (every await-for-stop resolves) is judged only in deterministic paused-time mode: stop requested, all hooks returned, 1 h of virtual time elapsed with all tasks idle; in stress mode a 20 s wall watchdog only yields 'inconclusive'",
+        "state monotonicity across different observers in stress mode is judged only for reads ordered by the shared logical clock (read A logged before observer B's previous event)",
+    ];
+    // outer wall-clock watchdog: firing is inconclusive
+    {
+        let report = report.clone();
+        let args = args.clone();
+        let limit = if args.is_thorough() { 1500 } else { 110 };
+        std::thread::spawn(move || {
+            std::thread::sleep(Duration::from_secs(limit));
+            report.inconclusive(format!("outer wall-clock watchdog fired after {limit}s"));
+            report.finish(&args, "exploration", "watchdog", false, &[]);
+            std::process::exit(0);
+        });
+    }
     match args.property.as_str() {
+        "C41" => c41(&args, &report),
         other => report.inconclusive(format!("property {other} not implemented in this monitor")),
     }
-    report.finish(&args, "exploration", "", false, &[]);
+    report.finish(&args, "exploration", rule, false, &assumptions);
 }
